@@ -33,6 +33,7 @@ for k in known:
     try:
         for budget in (None, "120000"):
             env = dict(os.environ)
+            env["VERIF_EVIDENCE_DIR"] = "/verif/.build/sweep-evidence"
             if budget:
                 env["VERIF_BUDGET_MS"] = budget
             t0 = time.time()
